@@ -343,24 +343,22 @@ impl Image<'_> {
                 ("interpolation_slots", none()),
             ]),
             EK::Interp(parts) => {
+                // Slot boundaries are byte offsets into the decoded text.
                 let mut s = String::new();
-                let mut n_chars = 0usize;
                 let mut slots = vec![];
                 for p in parts {
                     match p {
                         StrPart::Text(t) => {
                             for (c, _) in t {
                                 s.push(*c);
-                                n_chars += 1;
                             }
                         },
                         StrPart::Slot(se) => {
                             let sub = print_expr_canonical(se, self.n_ids);
                             let text = format!("${{{}}}", sub.src);
-                            let start = n_chars;
-                            n_chars += text.chars().count();
+                            let start = s.len();
                             s.push_str(&text);
-                            slots.push(D::Tuple(vec![D::Int(start as i128), D::Int(n_chars as i128)]));
+                            slots.push(D::Tuple(vec![D::Int(start as i128), D::Int(s.len() as i128)]));
                         },
                     }
                 }
@@ -514,6 +512,16 @@ pub fn expr_from(d: &D, sp: SlotParser) -> Result<Expr, String> {
                 None => EK::Str(s.chars().map(|c| (c, natural_spell(c))).collect()),
                 Some(slots) => {
                     let chars: Vec<char> = s.chars().collect();
+                    // Byte offsets -> character offsets.
+                    let mut byte_to_char = std::collections::BTreeMap::new();
+                    {
+                        let mut b = 0usize;
+                        for (i, c) in chars.iter().enumerate() {
+                            byte_to_char.insert(b, i);
+                            b += c.len_utf8();
+                        }
+                        byte_to_char.insert(b, chars.len());
+                    }
                     let mut parts = vec![];
                     let mut last = 0usize;
                     for sl in as_list(slots)? {
@@ -523,6 +531,10 @@ pub fn expr_from(d: &D, sp: SlotParser) -> Result<Expr, String> {
                                 _ => return Err("bad slot".to_string()),
                             },
                             _ => return Err("bad slot".to_string()),
+                        };
+                        let (a, b) = match (byte_to_char.get(&a), byte_to_char.get(&b)) {
+                            (Some(a), Some(b)) => (*a, *b),
+                            _ => return Err("slot not on a character boundary".to_string()),
                         };
                         if a < last || b > chars.len() || a + 3 > b {
                             return Err("slot out of range".to_string());
